@@ -295,8 +295,73 @@ def check(run: Run) -> None:
                             "copies capture_delta(ts) on every evaluation: started on a sampled TSL / TSB input it never delivers the elements that are valid but do not tick "
                             "again, and the switch output does not tick in the selection cycle", loc=fa.loc(fa.body))
 
+    with run.obligation("C12.k", "K9", "the case table is the configuration value under which a switch_ / dispatch_ node is interned, and it decides what the node does (branches, "
+                        "default, reload on every tick): operator== of every call-configuration record in the operator layer compares EVERY data member, so two calls that "
+                        "differ only in one member (e.g. .reload()) are never merged into one node"):
+        n_cfg = 0
+        for rel in t.all_files():
+            if not rel.startswith("include/hgraph/lib/std/operators/") or "operator==" not in t.read(rel):
+                continue
+            fi_ = t.file(rel)
+            for fd_ in fi_.funcs:
+                if fd_.name != "operator==" or not fd_.cls or fd_.body is None:
+                    continue
+                try:
+                    sd = t.struct(rel, fd_.cls)
+                except AnalysisError:
+                    continue
+                fa_ = R.parse(run, fd_)
+                other = fa_.params[0][1] if fa_.params and fa_.params[0][1] else "other"
+                mine, theirs = set(), set()
+                for n_ in fa_.body.walk():
+                    if isinstance(n_, C.Id):
+                        mine.add(n_.name)
+                    elif isinstance(n_, C.Member) and isinstance(n_.obj, C.Id) and n_.obj.name == other:
+                        theirs.add(n_.name)
+                n_cfg += 1
+                for f in sd.fields:
+                    if getattr(f, "is_static", False):
+                        continue
+                    run.count(1, "C12.k")
+                    if f.name not in mine or f.name not in theirs:
+                        run.finding("C12.k", f"{fd_.cls}::operator==:{f.name}-not-compared", f"{fd_.cls}::operator== does not compare `{f.name}`: two operator calls whose "
+                                    f"configuration differs only in `{f.name}` are interned to one node and the second call silently gets the first call's behaviour",
+                                    loc=fa_.loc(fa_.body))
+        run.sites(n_cfg, 5, "call-configuration records with operator==")
+
+    with run.obligation("C12.l", "K2", "held inputs are SAMPLED only when a branch is (re)selected: inside bind_branch_inputs every sampled binding is taken only when the "
+                        "`sampled` argument is true (the per-cycle re-bind of switch_evaluate passes false and must be a no-op for a stable source), and every plain "
+                        "binding only when it is false - for the key-set projection path and the ordinary path alike"):
+        fa = R.fn(run, SW, "bind_branch_inputs")
+        fl = R.flow(run, fa)
+        is_sampled_cond = lambda n: n.kind == "cond" and re.sub(r"\s", "", n.label) == "sampled"
+        samp = lambda n: n.kind == "call" and n.name in ("bind_sampled_input_to_source", "bind_input_to_source_sampled")
+        plain = lambda n: n.kind == "call" and n.name == "bind_input_to_source"
+        run.count(1, "C12.l")
+        if not fl.nodes_of(samp) or not fl.nodes_of(plain):
+            run.finding("C12.l", "bind_branch_inputs:key-set-path-single-mode", "the key-set projection path of bind_branch_inputs no longer has both a sampled and a plain "
+                        "binding: the per-cycle re-bind re-samples (and re-notifies the consumer) every time the switch node runs, or a fresh branch is not sampled",
+                        loc=fa.loc(fa.body))
+        else:
+            w = fl.reach([fl.start], targets=samp, after_source=False, edge_skip=lambda n, lab: is_sampled_cond(n) and lab == "T")
+            if w is not None:
+                run.finding("C12.l", "bind_branch_inputs:sampled-bind-unconditional", "a sampled binding is reachable without the `sampled` argument being true: "
+                            + fl.path_text(w), loc=fl.cfg.describe(w[-1][0]))
+            w = fl.reach([fl.start], targets=plain, after_source=False, edge_skip=lambda n, lab: is_sampled_cond(n) and lab == "F")
+            if w is not None:
+                run.finding("C12.l", "bind_branch_inputs:plain-bind-when-sampled", "a plain binding is reachable although the `sampled` argument is true: "
+                            + fl.path_text(w), loc=fl.cfg.describe(w[-1][0]))
+        # the ordinary path forwards the argument itself
+        cn = R.Canon()
+        fwd = [c for c in R.calls(fa, "bind_nested_input_to_source")]
+        if len(fwd) != 1 or not fwd[0].args or cn(fwd[0].args[-1]) != "sampled":
+            run.finding("C12.l", "bind_branch_inputs:ordinary-path-not-forwarding", "bind_nested_input_to_source must receive the `sampled` argument unchanged", loc=fa.loc(fa.body))
+
 
 VARIANTS = [
+    {"id": "l-key-set-path-always-sampled", "expect": "C12.l", "edits": [{"file": SW, "find": "      if (sampled) {\n        bind_sampled_input_to_source(std::move(target), source,\n                                     evaluation_time);\n      } else {\n        bind_input_to_source(std::move(target), source);\n      }", "replace": "      bind_sampled_input_to_source(std::move(target), source,\n                                   evaluation_time);"}]},
+    {"id": "l-ordinary-path-always-sampled", "expect": "C12.l", "edits": [{"file": SW, "find": "      bind_nested_input_to_source(std::move(target), std::move(source),\n                                  evaluation_time, sampled);", "replace": "      bind_nested_input_to_source(std::move(target), std::move(source),\n                                  evaluation_time, true);"}]},
+    {"id": "k-reload-flag-not-in-equality", "expect": "C12.k", "edits": [{"file": "include/hgraph/lib/std/operators/higher_order.h", "find": "            return cases == other.cases && default_branch == other.default_branch &&\n                   reload_on_ticked == other.reload_on_ticked;", "replace": "            return cases == other.cases && default_branch == other.default_branch;"}]},
     {"id": "j-revert-fix-pass-through-delta-only", "expect": "C12.j", "edits": [{"file": "include/hgraph/lib/std/std_nodes.h", "find": "            const Value delta = live.get() ? capture_delta(ts.base()) : capture_current_delta(ts.base());\n            live.set(true);\n", "replace": "            const Value delta = capture_delta(ts.base());\n"}]},
     {"id": "j-flag-polarity-swapped", "expect": "C12.j", "edits": [{"file": "include/hgraph/lib/std/std_nodes.h", "find": "live.get() ? capture_delta(ts.base()) : capture_current_delta(ts.base());", "replace": "live.get() ? capture_current_delta(ts.base()) : capture_delta(ts.base());"}]},
     {"id": "j-twin-if-else-form", "expect": None, "edits": [{"file": "include/hgraph/lib/std/std_nodes.h", "find": "            const Value delta = live.get() ? capture_delta(ts.base()) : capture_current_delta(ts.base());\n            live.set(true);\n            apply_delta(out, delta.view());", "replace": "            if (!live.get()) { const Value first = capture_current_delta(ts.base()); apply_delta(out, first.view()); }\n            else { const Value delta = capture_delta(ts.base()); apply_delta(out, delta.view()); }\n            live.set(true);"}]},
